@@ -435,3 +435,59 @@ package transports
 //@   ensures [C02.jsonp.escaped]  ret(url.ParseQuery, 1, 1) == nil && has ==> calls((*regexp.Regexp).ReplaceAllString) == 1 && arg((*regexp.Regexp).ReplaceAllString, 1, re) == rDoubleSlashes && arg((*regexp.Regexp).ReplaceAllString, 1, src) == ret((*regexp.Regexp).ReplaceAllStringFunc, 1) && arg((*regexp.Regexp).ReplaceAllString, 1, repl) == "\\n"
 // (the replacement function handed to ReplaceAllStringFunc is run by package regexp on matches of rSlashes only; it is not
 // under contract: its indexing of the submatch list relies on that)
+
+// ---- the base transport (transports/transport.go): what every transport inherits ----------------------------------------
+//@ spec tOK(t *transport) bool = t != nil && t.EventEmitter != nil && t._proto_ != nil
+
+// one frame / one payload element = one decode = one packet event
+//@ func (*transport).OnData(data)
+//@   props C02
+//@   requires tOK(t) && t.parser != nil
+//@   modifies nothing
+//@   ensures [C02.t.one] calls(parser.Parser.DecodePacket) == 1 && arg(parser.Parser.DecodePacket, 1, data) == data && emitted(t.EventEmitter, "packet") == 1
+//@ func (*transport).OnPacket(packet)
+//@   props C02, C09
+//@   requires tOK(t)
+//@   modifies nothing
+//@   ensures [C02.t.packetevt] emitted(t.EventEmitter, "packet") == 1 && nevents() == 1
+//@   callsite events.EventEmitter.Emit#1
+//@     assert [C09.evt.packet] $evt == "packet" && len($args) == 1 && $args[0] == iface(packet)   // payload typing the session's packet listener relies on
+
+// a transport error reaches the listeners as one "error" event carrying an error value
+//@ func (*transport).OnError(msg, desc)
+//@   props C09, C03
+//@   requires tOK(t)
+//@   modifies nothing
+//@   ensures [C03.t.errorevt] calls(events.EventEmitter.Emit) <= 1
+//@   callsite events.EventEmitter.Emit#1
+//@     assert [C09.evt.error] $evt == "error" && len($args) == 1 && typeis($args[0], error)
+
+// close: at most once, state first; Close acts only on an open transport and hands exactly one callback slot to DoClose
+//@ func (*transport).OnClose()
+//@   props C03, C12
+//@   requires tOK(t)
+//@   modifies t._readyState
+//@   ensures [C03.t.closedonce] old(t.ReadyState()) == "closed" ==> nevents() == 0
+//@   ensures [C03.t.closeevt]   old(t.ReadyState()) != "closed" ==> emitted(t.EventEmitter, "close") == 1 && t.ReadyState() == "closed"
+//@   callsite events.EventEmitter.Emit#1
+//@     assert [C03.t.statefirst] t.ReadyState() == "closed" && $evt == "close"
+//@ func (*transport).Close(fn)
+//@   props C03, C12
+//@   requires tOK(t)
+//@   modifies *
+//@   let rs = old(t.ReadyState())
+//@   ensures [C03.t.closeguard] rs == "closed" || rs == "closing" ==> calls(Transport.DoClose) == 0
+//@   ensures [C12.t.doclose]    rs != "closed" && rs != "closing" ==> calls(Transport.DoClose) == 1 && arg(Transport.DoClose, 1, this) == t._proto_
+//@   callsite Transport.DoClose#1
+//@     assert [C03.t.closingfirst] t.ReadyState() == "closing"
+//@     assert [C12.t.callback] (len(fn) > 0 ==> $fn == fn[0]) && (len(fn) == 0 ==> $fn == nil)
+
+// revision and encoding of a transport are those its request names: v4 parser exactly for EIO=4, base64 exactly for b64
+//@ func (*transport).Construct(ctx)
+//@   props C06
+//@   requires t != nil && ctxOK(ctx)
+//@   modifies t.parser, t.protocol, t.supportsBinary
+//@   let eio4 = uf_b_has(ctx.query, "EIO", ctx.query.$bagver) && uf_s_peek(ctx.query, "EIO", ctx.query.$bagver) == "4"
+//@   ensures [C06.t.parser] (eio4 ==> t.parser == ret(parser.Parserv4, 1)) && (!eio4 ==> t.parser == ret(parser.Parserv3, 1))
+//@   ensures [C06.t.rev]    t.protocol == ret(parser.Parser.Protocol, 1) && arg(parser.Parser.Protocol, 1, this) == t.parser
+//@   ensures [C06.t.b64]    t.supportsBinary == !uf_b_has(ctx.query, "b64", ctx.query.$bagver)
